@@ -35,6 +35,27 @@ type Node struct {
 type Program struct {
 	Leaves []Leaf `json:"leaves"`
 	Nodes  []Node `json:"nodes"`
+	// Disturb: after the program ran (and, in gradient checks, after back-propagation), the
+	// same program is run once more on other values of the same shapes before the results of
+	// the first run are read - results must not live in storage that later calls reuse
+	Disturb bool `json:"disturb,omitempty"`
+}
+
+// Disturbance runs p once more on junk values (and back-propagates its last value if bp).
+func Disturbance(p Program, bp bool) {
+	q := Program{Nodes: p.Nodes}
+	for _, l := range p.Leaves {
+		v := make([]float64, len(l.Vals))
+		for i := range v {
+			v[i] = 7000.25 + float64(i)
+		}
+		q.Leaves = append(q.Leaves, Leaf{Shape: l.Shape, Vals: v, Tracked: l.Tracked})
+	}
+	vals, err := RunLib(q)
+	if err != nil || !bp {
+		return
+	}
+	_ = tensor.BackPropagate(vals[len(vals)-1])
 }
 
 var Unary = []string{"scale", "pow", "exp", "log", "sin", "cos", "tan", "sinh", "cosh", "tanh"}
